@@ -33,6 +33,15 @@ func genC04(c *ctx) {
 		c.typing(pi, fi, 2, chk)
 		c.tokenEdits(pi, fi, 2, chk)
 	})
+	// concurrent rounds with a snapshot at every context switch
+	c.add(&h.Event{K: "quiesce"})
+	nr := 3
+	if c.thorough() {
+		nr = 10
+	}
+	for i := 0; i < nr; i++ {
+		c.add(&h.Event{K: "round", Round: c.round(2+c.n(3), nil)})
+	}
 	// error paths: faults on
 	c.add(c.randomFault())
 	c.add(c.randomFault())
@@ -67,6 +76,44 @@ func (c *ctx) randomQuery() h.Query {
 	}
 	q.Order = h.Order{P: []string{"asc", "desc", "rotate", "shuffle", "pinfirst", "pinlast"}[c.n(6)], Key: c.key()}
 	return q
+}
+
+// round draws a concurrent round of nt tasks.
+func (c *ctx) round(nt int, hot *h.Query) *h.Round {
+	rd := &h.Round{Reverse: c.chance(0.5)}
+	if hot == nil && c.chance(0.6) {
+		q := c.randomQuery()
+		hot = &q
+	}
+	for t := 0; t < nt; t++ {
+		nq := 1 + c.n(3)
+		var qs []h.Query
+		for k := 0; k < nq; k++ {
+			if hot != nil && c.chance(0.5) {
+				q := *hot
+				q.Order = h.Order{P: "shuffle", Key: c.key()}
+				qs = append(qs, q)
+			} else {
+				qs = append(qs, c.randomQuery())
+			}
+		}
+		rd.Tasks = append(rd.Tasks, qs)
+	}
+	ns := 4 + c.n(20)
+	for k := 0; k < ns; k++ {
+		switch c.n(4) {
+		case 0:
+			rd.Switch = append(rd.Switch, 1+c.n(5))
+		case 1:
+			rd.Switch = append(rd.Switch, 1+c.n(60))
+		case 2:
+			rd.Switch = append(rd.Switch, 1+c.n(1500))
+		default:
+			rd.Switch = append(rd.Switch, 0) // run to completion
+		}
+		rd.Pick = append(rd.Pick, c.n(64))
+	}
+	return rd
 }
 
 func genC05(c *ctx) {
